@@ -341,7 +341,7 @@ def prove(goal, facts, budget=1500):
     """goal: (rel, Poly) with rel in >= == !=.  Sound, incomplete.  Memoised on (goal, facts, budget)."""
     facts = list(facts)
     try:
-        ck = (goal[0], goal[1].key(), frozenset((r, f.key()) for r, f in facts), budget)
+        ck = (goal[0], goal[1].key(), frozenset((r, f.key()) for r, f in facts), budget, SPLIT_DEPTH)
     except Exception:
         ck = None
     if ck is not None and ck in _PROVE_CACHE:
@@ -352,7 +352,12 @@ def prove(goal, facts, budget=1500):
     return r
 
 
-def _prove(goal, facts, budget=1500, _split=3):
+SPLIT_DEPTH = 3  # case-split depth on min atoms; the abstract interpreter's own joins run with 0 (see absint.Analysis.run)
+
+
+def _prove(goal, facts, budget=1500, _split=None):
+    if _split is None:
+        _split = SPLIT_DEPTH
     if _prove1(goal, facts, budget):
         return True
     # case split on a min atom: min(x, y) = x when x <= y, = y when y <= x (both cases must go through)
